@@ -72,7 +72,7 @@ Definition model_trace (h : list (event * obs)) : list (option (list resp) * Z *
                   end) init_store h.
 
 (* shorthands that keep the case files small *)
-Definition I (o : op) (g : bool) : item := {| i_op := o; i_gate := g |}.
-Definition Q (who ver : Z) (cont : bool) (its : list item) : event :=
+Definition It (o : op) (g : bool) : item := {| i_op := o; i_gate := g |}.
+Definition Rq (who ver : Z) (cont : bool) (its : list item) : event :=
   EReq {| rq_who := who; rq_ver := ver; rq_cont := cont; rq_items := its |}.
-Definition B (rs : option (list resp)) (n : Z) (us : list Z) : obs := {| ob_resps := rs; ob_next := n; ob_uids := us |}.
+Definition Ob (rs : option (list resp)) (n : Z) (us : list Z) : obs := {| ob_resps := rs; ob_next := n; ob_uids := us |}.
